@@ -174,6 +174,11 @@ def stepJ (s : DSt) (j : Json) : DSt × Json :=
   | "loadinst" =>
     let defs := serialize fl s.lib s.sg [natF j "root"]
     (s, Json.mkObj [("log", logJ (if boolF j "body" then runLog defs else loadInstanceLog defs))])
+  | "instvalues" =>
+    (s, match instanceValues (serialize fl s.lib s.sg [natF j "root"]) with
+      | .ok l => Json.mkObj [("values", Json.arr (l.map (fun (p : Nat × List (List Nat × Val)) =>
+          Json.arr #[(p.1 : Json), Json.arr (p.2.map (fun f => Json.arr #[Json.str (hexOf f.1), valJ f.2])).toArray])).toArray)]
+      | .error e => errJ e)
   | op => (s, Json.mkObj [("error", Json.str s!"bad-op {op}")])
 
 def main : IO Unit := J.loop stepJ {}
